@@ -600,6 +600,106 @@ def concurrent_publish_case(ctx, case: dict) -> None:
                       f"client published {published!r:.200}", case)
 
 
+def read_write_mix_case(ctx, script: list) -> None:
+    """Receiving and sending on ONE client interleaved: broker messages, undecodable payloads, broker errors, reads, writes
+    the broker accepts and writes it refuses.  Reads deliver exactly what arrived from the broker, in order (a refused
+    publish is the WRITER's error, it is not also a receive error); writes publish or raise whatever was received before."""
+    from aiomqtt import MqttError
+
+    from aiomysensors.exceptions import TransportError
+    from aiomysensors.transport.mqtt import MQTTClient
+
+    case = {"kind": "read-write-mix", "script": script}
+    log: dict = {"reads": [], "expected": [], "problems": []}
+
+    async def scenario() -> None:
+        transport = MQTTClient("broker.invalid", 1883, in_prefix="in", out_prefix="out")
+        await transport.connect()
+        client = FakeClient.instances[-1]
+        dead = False
+        uid = 0
+        for op in script:
+            uid += 1
+            if op == "msg":
+                client.deliver(f"in/1/0/1/0/{uid}", f"m{uid}".encode())
+                if not dead:
+                    log["expected"].append(("line", f"1;0;1;0;{uid};m{uid}"))
+            elif op == "bin":
+                client.deliver(f"in/1/0/1/0/{uid}", b"\xff\xfe")
+                if not dead:
+                    log["expected"].append(("error", "undecodable"))
+            elif op == "err":
+                client.deliver_error(MqttError("broker went away"))
+                if not dead:
+                    log["expected"].append(("error", "broker"))
+                dead = True
+            elif op == "read":
+                if len(log["reads"]) >= len(log["expected"]):
+                    continue  # nothing has arrived for this read: skip (pending reads are another workload)
+                log["waiting"] = True
+                try:
+                    log["reads"].append(("line", (await transport.read()).rstrip("\n")))
+                except Exception as exc:  # noqa: BLE001
+                    log["reads"].append(("error", exc))
+                log["waiting"] = False
+            elif op in ("write", "write-acked", "write-refused"):
+                acked = int(op == "write-acked")
+                line = f"9;{uid % 200};1;{acked};2;w{uid}\n"
+                before = len(client.published)
+                FakeClient.publish_error = MqttError("publish refused") if op == "write-refused" else None
+                try:
+                    await transport.write(line)
+                    outcome = "ok"
+                except Exception as exc:  # noqa: BLE001
+                    outcome = exc
+                FakeClient.publish_error = None
+                published = client.published[before:]
+                if op == "write-refused":
+                    if outcome == "ok":
+                        log["problems"].append(("publish-refusal-swallowed", f"op #{uid}: the broker refused the publish, write returned"))
+                    elif not isinstance(outcome, TransportError):
+                        log["problems"].append(("write-raises", f"op #{uid}: refused publish raised {type(outcome).__name__}"))
+                elif dead:
+                    pass  # after a broker error nothing further is demanded of writes
+                elif outcome != "ok":
+                    log["problems"].append(("write-fails-without-broker-error",
+                                            f"op #{uid} ({op}) after {script[:uid - 1]}: write raised {type(outcome).__name__}: "
+                                            f"{outcome!s:.60} although the broker accepts publishes"))
+                elif published != [(f"out/9/{uid % 200}/1/{acked}/2", f"w{uid}", acked, False)]:
+                    log["problems"].append(("publish-arguments-differ", f"op #{uid}: published {published!r:.120}"))
+            await asyncio.sleep(0)
+        try:
+            await transport.disconnect()
+        except Exception as exc:  # noqa: BLE001
+            log["problems"].append(("disconnect-raises", f"{type(exc).__name__}"))
+
+    with install() as seam:
+        if not seam:
+            return
+        result, _loop = run_virtual(scenario)
+    ctx.case(("read-write-mix", tuple(script)), sample=case)
+    ctx.clause("read-write-mix")
+    if isinstance(result, LogicalDeadlock):
+        ctx.violation("mqtt-deaf", f"script {script}: a read for something that HAS arrived can never complete", case)
+        return
+    if isinstance(result, BaseException):
+        from ..harness import scenario_exception
+
+        scenario_exception(ctx, result, case, "read-write-mix")
+        return
+    for key, what in log["problems"][:2]:
+        ctx.violation(key, f"script {script}: {what}", case)
+    for index, (kind, value) in enumerate(log["reads"]):
+        want_kind, want = log["expected"][index]
+        if kind != want_kind or (kind == "line" and value != want):
+            ctx.violation("delivery-order-or-count", f"script {script}: read #{index} gave {kind} {value!r:.60}, arrival #{index} "
+                                                     f"was {want_kind} {want!r}", case)
+            break
+        if kind == "error" and not isinstance(value, TransportError):
+            ctx.violation("read-raises-non-transport-error", f"script {script}: read #{index} raised {type(value).__name__}", case)
+            break
+
+
 def reconnect_after_error_case(ctx, with_disconnect: bool, pending_read: bool) -> None:
     """The broker connection breaks (receive error), the application connects again - with or without calling
     disconnect() first.  connect() may refuse loudly (any exception); if it returns, the transport must hear the broker
@@ -879,6 +979,8 @@ def run_case(ctx, case: dict) -> None:
         client_script_case(ctx, script, tuple(case["prefixes"]))
     elif kind == "concurrent-publish":
         concurrent_publish_case(ctx, case)
+    elif kind == "read-write-mix":
+        read_write_mix_case(ctx, case["script"])
     elif kind == "reconnect-after-error":
         reconnect_after_error_case(ctx, case["with_disconnect"], case["pending_read"])
     elif kind == "two-clients":
@@ -962,6 +1064,15 @@ def run(ctx) -> None:
                     concurrent_publish_case(ctx, {"kind": "concurrent-publish", "writers": writers, "waves": waves,
                                                   "cancel": list(range(writers)) if all_acked else list(range(0, writers, 2)),
                                                   "later": 4, "all_acked": all_acked})
+        mix_ops = ["msg", "bin", "read", "write", "write-acked", "write-refused"]
+        count = 0
+        for length in range(2, ctx.pick(4, 5) + 1):
+            for script in itertools.product(mix_ops, repeat=length):
+                if "read" not in script and not any(op.startswith("write") for op in script):
+                    continue
+                count += 1
+                if ctx.mine(count):
+                    read_write_mix_case(ctx, [*script, "read", "write", "read", "read"])
         for i, (with_disconnect, pending) in enumerate(((False, False), (True, False))):
             if ctx.mine(i):
                 reconnect_after_error_case(ctx, with_disconnect, pending)
